@@ -1391,17 +1391,20 @@ impl<'a, W: Write> Run<'a, W> {
                 Step::Gc(Some(alive)) => {
                     self.gcs_done += 1;
                     let mut dead = 0usize;
+                    let mut newly: Vec<String> = Vec::new();
                     for j in 0..self.regs.len() {
                         match self.regs[j] {
                             Some(r) if alive.contains(&r.index()) => {}
-                            _ => {
+                            Some(_) => {
                                 self.regs[j] = None;
                                 dead += 1;
+                                newly.push(j.to_string());
                             }
+                            None => dead += 1,
                         }
                     }
                     let (rs, last) = { let s = self.bdd.storage(); (s.real_size(), s.size()) };
-                    writeln!(self.out, "gc {} {} {}", rs, last, dead).unwrap();
+                    writeln!(self.out, "gc {} {} {} d={}", rs, last, dead, newly.join(",")).unwrap();
                     if self.oracle {
                         self.oracle_evals += 1;
                         if rs != alive.len() {
